@@ -179,8 +179,15 @@ func returnsCtor(fn *ssa.Function, ctor string) []*ssa.Call {
 	for _, rb := range an.ReturnBlocks(fn) {
 		r := an.LastInstr(rb).(*ssa.Return)
 		for _, v := range an.ReturnValues(r) {
-			if call := an.CallOf(v); call != nil && strings.HasSuffix(an.CalleeName(&call.Call), "."+ctor) {
-				out = append(out, call)
+			// the value itself, or — a result variable assigned per clause — each phi edge
+			cands := []ssa.Value{v}
+			if ph, isPhi := an.Unwrap(v).(*ssa.Phi); isPhi {
+				cands = ph.Edges
+			}
+			for _, cv := range cands {
+				if call := an.CallOf(cv); call != nil && strings.HasSuffix(an.CalleeName(&call.Call), "."+ctor) {
+					out = append(out, call)
+				}
 			}
 		}
 	}
